@@ -5,7 +5,8 @@
     torf/_utils.py  MonitoredList  (__setitem__, __delitem__, insert, replace, clear and the
                                     inherited MutableSequence append/extend/+=/remove/pop)
                     URL, URLs      (coercion `str(s).replace(' ', '+')`, validation of the ORIGINAL
-                                    string, blank-string rule, `_get_known_urls` cross-tier filter)
+                                    string AND of the coerced string, blank-string rule,
+                                    `_get_known_urls` cross-tier filter)
                     Trackers       (tiers are URLs objects; `_tier_changed` empty-tier removal;
                                     `tier not in self._tiers` = frozenset equality)
     torf/_torrent.py  trackers/webseeds/httpseeds getters (rebuild the list object from the
@@ -89,9 +90,13 @@ def isBlank (s : String) : Bool := s.toList.all fun c => c = ' ' || c = '\t' || 
 section
 variable (isUrl : String → Bool)
 
-/-- `URL(u)`: the ORIGINAL string is validated, the coerced one is kept -/
+/-- `URL.__init__`: `not is_url(url) or not is_url(self)` raises — the string as given AND the
+    stored string (`self` = `str(url).replace(' ', '+')`) must both be valid -/
+def accepts (u : String) : Bool := isUrl u && isUrl (spaceToPlus u)
+
+/-- `URL(u)`: the coerced string is kept iff the original and the coerced string are valid -/
 def coerce (u : String) : Except Err String :=
-  if isUrl u then .ok (spaceToPlus u) else .error .url
+  if accepts isUrl u then .ok (spaceToPlus u) else .error .url
 
 /-- `MonitoredList.insert(idx, u)` on a `URLs` object: coerce, then `_filter_func`
     (`url not in self._items and url not in self._get_known_urls()`), then `list.insert`.
@@ -116,7 +121,8 @@ def coerceAll : List String → Except Err (List String)
       | .ok cs => .ok (c :: cs)
 
 /-- `extend(items)` with the callback disabled: `append` = `insert(len(self), ·)` one by one
-    (every item is coerced a second time by `insert`) -/
+    (every item is coerced a second time by `insert`; the second coercion of a coerced item cannot
+    fail any more — `coerce_coerced` in Lemmas/ListsUrl — so `replace` never fails after `clear`) -/
 def addAll (known : List String) : List String → List String → Except Err (List String)
   | items, [] => .ok items
   | items, c :: cs =>
@@ -535,12 +541,14 @@ def heldReplaceLoop : Tiers → List TierVal → Tiers × Outcome
     | .error e => (T, .error e)
     | .ok T' => heldReplaceLoop T' vs
 
-/-- `Trackers.replace(vs)`: `with self._callback_disabled(): …` then the callback.
-    `_callback_disabled()` restores the callback after its `yield` without `try/finally`, so an
-    exception inside the block leaves the callback `None` for good. -/
+/-- `Trackers.replace(vs)`: `with self._callback_disabled(): clear; append…` then the callback.
+    `_callback_disabled()` restores the callback in a `finally` clause, so an exception inside the
+    block leaves the callback as it was — but the tiers are cleared BEFORE the new values are
+    validated (unlike `MonitoredList.replace`), so a `replace` that raises leaves the object half
+    replaced while nothing is written (finding D16d). -/
 def heldReplace (s : MI) (h : HeldTr) (vs : List TierVal) : MI × HeldTr × Outcome :=
   match heldReplaceLoop isUrl [] vs with
-  | (T', .error e) => (s, { tiers := T', cb := false }, .error e)
+  | (T', .error e) => (s, { h with tiers := T' }, .error e)
   | (T', .ok) => (if h.cb then writeTrackers s (wOf T') else s, { h with tiers := T' }, .ok)
 
 /-- `Trackers.append(v)` on the held object -/
@@ -555,6 +563,12 @@ def heldClear (s : MI) (h : HeldTr) : MI × HeldTr × Outcome :=
 
 inductive HOp | replace (vs : List TierVal) | append (v : TierVal) | clear
   deriving Repr
+
+/-- a `replace` whose argument is rejected (it starts from the cleared object, so whether it
+    raises does not depend on the state) — the operation of finding D16d -/
+def HOp.failingReplace : HOp → Bool
+  | .replace vs => decide ((heldReplaceLoop isUrl [] vs).2 ≠ .ok)
+  | _ => false
 
 def heldStep (s : MI) (h : HeldTr) : HOp → MI × HeldTr × Outcome
   | .replace vs => heldReplace isUrl s h vs
